@@ -747,3 +747,231 @@ Definition show_bres (r : res bres) : val :=
 Definition run_C06b (raw : list (str * list rawft)) (ix : rawbidx) (u : bool) (sp fi gap : option str) : val :=
   VL [VB (wf_C06b raw ix u sp fi gap);
       show_bres (bind (build_basket 0 raw) (fun qs => bind (build_bidx ix) (fun bx => basket_getitem qs bx u sp fi gap)))].
+
+(* ---- round 7: histories over the FEATURE LIST (in-place edits of seq.fts interleaved with lookups by type name), on several
+   objects side by side.  The model is a pure function of the current value: every lookup is the lookup on the list produced by
+   the edits so far; any memo / cache / stale state in the code disagrees at the first wrong step. ---- *)
+(* sorted(objs, key): stable; x goes before the first element that is not strictly smaller (insert_by above, any element type) *)
+Fixpoint insert_gen {A} (lt : A -> A -> bool) (x : A) (l : list A) : list A :=
+  match l with
+  | [] => [x]
+  | y :: t => if lt y x then y :: insert_gen lt x t else x :: y :: t
+  end.
+Definition sort_gen {A} (lt : A -> A -> bool) (l : list A) : list A := fold_right (insert_gen lt) [] l.
+(* sorted(..., reverse=True) (listobject.c list_sort_impl): reverse, sort ascending, reverse: equal elements keep their order *)
+Definition sort_dir {A} (lt : A -> A -> bool) (reverse : bool) (l : list A) : list A :=
+  if reverse then rev (sort_gen lt (rev l)) else sort_gen lt l.
+(* key None: Feature.__lt__ (fts.py:365-369, equal seqids) -> LocationTuple.__lt__ (fts.py:204-208): by range, lexicographically *)
+Definition ft_key (f : feature) : Z * Z := (range_start (flocs f), range_stop (flocs f)).
+Definition pair_lt (a b : Z * Z) : bool := (fst a <? fst b) || ((fst a =? fst b) && (snd a <? snd b)).
+Definition ft_pos_lt (a b : feature) : bool := pair_lt (ft_key a) (ft_key b).
+(* key len: Feature.__len__, fts.py:375-377 *)
+Definition ft_len (f : feature) : Z := range_stop (flocs f) - range_start (flocs f).
+Definition ft_len_lt (a b : feature) : bool := ft_len a <? ft_len b.
+Definition key_lt (k : Z) : feature -> feature -> bool := if k =? 0 then ft_pos_lt else ft_len_lt.
+(* FeatureList.sort(keys, reverse) fts.py:783-803 -> _sorted, cane.py:61-64:
+   for keyfunc in keyfuncs[::-1]: objs = sorted(objs, key=keyfunc, reverse=reverse); keys=None is the one key None (code 0) *)
+Definition fts_sort (keys : list Z) (reverse : bool) (l : list feature) : list feature :=
+  fold_left (fun acc k => sort_dir (key_lt k) reverse acc) (rev keys) l.
+
+(* list indexing: l[i] with a negative index counted from the end *)
+Definition norm_idx (len i : Z) : option nat :=
+  let k := if i <? 0 then i + len else i in
+  if (k <? 0) || (len <=? k) then None else Some (Z.to_nat k).
+Definition list_set {A} (l : list A) (k : nat) (x : A) : list A := firstn k l ++ x :: skipn (S k) l.     (* l[k] = x *)
+Definition list_del {A} (l : list A) (k : nat) : list A := firstn k l ++ skipn (S k) l.                (* del l[k] *)
+(* list.insert(i, x): the index is clamped (listobject.c ins1) *)
+Definition list_ins {A} (l : list A) (i : Z) (x : A) : list A :=
+  let len := Z.of_nat (length l) in
+  let k := Z.to_nat (if i <? 0 then Z.max (i + len) 0 else Z.min i len) in
+  firstn k l ++ x :: skipn k l.
+(* Location.__eq__ fts.py:99-107, tuple equality, Feature.__eq__ fts.py:358-363 (the metadata of the driver's features is their type) *)
+Definition loc_eqb (a b : loc) : bool :=
+  (lstart a =? lstart b) && (lstop a =? lstop b) && byte_eqb (lstrand a) (lstrand b) && N.eqb (ldefect a) (ldefect b).
+Fixpoint locs_eqb (a b : list loc) : bool :=
+  match a, b with
+  | [], [] => true
+  | x :: r, y :: t => loc_eqb x y && locs_eqb r t
+  | _, _ => false
+  end.
+Definition opt_str_eqb (a b : option str) : bool :=
+  match a, b with Some x, Some y => str_eqb x y | None, None => true | _, _ => false end.
+Definition ft_eqb (a b : feature) : bool := opt_str_eqb (ftype a) (ftype b) && locs_eqb (flocs a) (flocs b).
+(* list.remove(x): the first element equal to x goes *)
+Fixpoint remove_first (x : feature) (l : list feature) : option (list feature) :=
+  match l with
+  | [] => None
+  | y :: t => if ft_eqb y x then Some t else match remove_first x t with Some r => Some (y :: r) | None => None end
+  end.
+
+(* FeatureList.get / select with a list or tuple of names, fts.py:639-640, 645; 657-658, 664 *)
+Definition type_in (names : list str) (f : feature) : bool :=
+  match ftype f with
+  | Some t => existsb (fun n => str_eqb (lower t) (lower n)) names
+  | None => false
+  end.
+(* FeatureList.select(type) for a str argument, fts.py:648-666 *)
+Definition fts_select (name : str) (fts : list feature) : list feature := filter (type_matches name) fts.
+
+(* in-place edits of the feature list of one object (UserList methods act on .data) *)
+Inductive fedit :=
+| ESort (keys : list Z) (reverse : bool)   (* fts.sort(keys, reverse) *)
+| EReverse                                 (* fts.reverse() *)
+| ESetItem (i : Z) (f : rawft)             (* fts[i] = Feature(...) *)
+| EInsert (i : Z) (f : rawft)              (* fts.insert(i, Feature(...)) *)
+| EAppend (f : rawft)                      (* fts.append(Feature(...)) *)
+| EExtend (fs : list rawft)                (* fts.extend([...]) / fts += [...] *)
+| EPop (i : Z)                             (* fts.pop(i) / del fts[i] *)
+| ERemove (i : Z)                          (* fts.remove(fts[i]) *)
+| ESetType (i : Z) (t : str)               (* fts[i].type = t *)
+| ESetLocs (i : Z) (ls : list rawloc)      (* fts[i].locs = [Location(...), ...] *)
+| ESwap (i j : Z)                          (* fts[i], fts[j] = fts[j], fts[i] *)
+| EClear.                                  (* fts.clear() *)
+
+(* (in domain?, value returned / exception, list afterwards); an exception leaves the list as it was *)
+Definition fedit_run (l : list feature) (e : fedit) : bool * val * list feature :=
+  let len := Z.of_nat (length l) in
+  match e with
+  | ESort keys reverse => (true, VNone, fts_sort keys reverse l)
+  | EReverse => (true, VNone, rev l)
+  | ESetItem i f =>
+      match build_ft f with
+      | Err x => (false, VE x, l)
+      | Ok ft => match norm_idx len i with
+                 | Some k => (true, VNone, list_set l k ft)
+                 | None => (true, VE E_Index, l)
+                 end
+      end
+  | EInsert i f =>
+      match build_ft f with
+      | Err x => (false, VE x, l)
+      | Ok ft => (true, VNone, list_ins l i ft)
+      end
+  | EAppend f =>
+      match build_ft f with
+      | Err x => (false, VE x, l)
+      | Ok ft => (true, VNone, l ++ [ft])
+      end
+  | EExtend fs =>
+      match build_fts fs with
+      | Err x => (false, VE x, l)
+      | Ok r => (true, VNone, l ++ r)
+      end
+  | EPop i =>
+      match norm_idx len i with
+      | Some k => match nth_error l k with
+                  | Some f => (true, show_ft f, list_del l k)
+                  | None => (true, VE E_Index, l)
+                  end
+      | None => (true, VE E_Index, l)
+      end
+  | ERemove i =>
+      match norm_idx len i with
+      | Some k => match nth_error l k with
+                  | Some f => match remove_first f l with
+                              | Some r => (true, VNone, r)
+                              | None => (true, VE E_Value, l)
+                              end
+                  | None => (true, VE E_Index, l)
+                  end
+      | None => (true, VE E_Index, l)
+      end
+  | ESetType i t =>
+      match norm_idx len i with
+      | Some k => match nth_error l k with
+                  | Some f => (ascii_str t, VNone, list_set l k (mkFt (Some t) (flocs f)))
+                  | None => (true, VE E_Index, l)
+                  end
+      | None => (true, VE E_Index, l)
+      end
+  | ESetLocs i ls =>
+      match build_locs ls with
+      | Err x => (false, VE x, l)
+      | Ok ls1 =>
+          match norm_idx len i with
+          | Some k => match nth_error l k with
+                      | Some f => match mk_loctuple ls1 with
+                                  | Ok ls2 => (true, VNone, list_set l k (mkFt (ftype f) ls2))
+                                  | Err x => (false, VE x, l)
+                                  end
+                      | None => (true, VE E_Index, l)
+                      end
+          | None => (true, VE E_Index, l)
+          end
+      end
+  | ESwap i j =>
+      match norm_idx len j, norm_idx len i with
+      | Some kj, Some ki =>
+          match nth_error l kj, nth_error l ki with
+          | Some fj, Some fi => (true, VNone, list_set (list_set l ki fj) kj fi)
+          | _, _ => (true, VE E_Index, l)
+          end
+      | _, _ => (true, VE E_Index, l)
+      end
+  | EClear => (true, VNone, [])
+  end.
+
+Inductive fstep :=
+| FSeq (st : hstep)                        (* a step of the sequence-level history language (windows, rc, edits of the data) *)
+| FEdit (e : fedit)                        (* an in-place edit of seq.fts *)
+| FGet (name : str)                        (* seq.fts.get(name) *)
+| FGetAny (names : list str)               (* seq.fts.get([names]) *)
+| FSelect (name : str)                     (* seq.fts.select(name) *)
+| FSelectAny (names : list str)            (* seq.fts.select([names]) *)
+| FBasket (ix : rawbidx) (u : bool) (sp fi gap : option str).    (* BioBasket(all objects)[ix] / .rc(update_fts=u): every object *)
+
+Definition basket_ok (qs : list belem) (bx : bindex) (u : bool) (gap : option str) : bool :=
+  forallb (fun e => state_ok gap (snd e)) qs &&
+  (match bx with BWin (WLoc _) | BWin (WFeat _) | BWin (WType _) => true | BWin _ => false | _ => true end) &&
+  match bindex_win bx with
+  | Some w => (match w with WOwn _ => false | _ => true end) && forallb (fun e => win_ok_g (snd e) w u gap) qs
+  | None => true
+  end.
+Fixpoint tag_from {A} (k : Z) (l : list A) : list (Z * A) :=
+  match l with [] => [] | x :: r => (k, x) :: tag_from (k + 1) r end.
+Definition opt_show (o : option feature) : val := match o with Some f => show_ft f | None => VNone end.
+
+(* one step addressed to object number obj (mod the number of objects): (in domain?, value / exception, all objects afterwards) *)
+Definition fstep_run (qs : list bioseq) (obj : nat) (st : fstep) : bool * val * list bioseq :=
+  let k := Nat.modulo obj (length qs) in
+  match nth_error qs k with
+  | None => (false, VE E_Index, qs)
+  | Some q =>
+      match st with
+      | FSeq h => let '(ok, v, q') := hstep_run q h in (ok, v, list_set qs k q')
+      | FEdit e => let '(ok, v, l') := fedit_run (sfts q) e in (ok, v, list_set qs k (mkSeq (sdata q) l'))
+      | FGet name => (ascii_str name, opt_show (fts_get name (sfts q)), qs)
+      | FGetAny names => (forallb ascii_str names, opt_show (find (type_in names) (sfts q)), qs)
+      | FSelect name => (ascii_str name, VL (map show_ft (fts_select name (sfts q))), qs)
+      | FSelectAny names => (forallb ascii_str names, VL (map show_ft (filter (type_in names) (sfts q))), qs)
+      | FBasket ix u sp fi gap =>
+          match build_bidx ix with
+          | Err e => (false, VE e, qs)
+          | Ok bx =>
+              let es := tag_from 0 qs in
+              let r := basket_getitem es bx u sp fi gap in
+              (opt_ascii sp && opt_ascii fi && opt_ascii gap && basket_ok es bx u gap,
+               show_bres r,
+               match bx, r with
+               | BRc, Ok (BMany l) => map snd l           (* BioBasket.rc works in place on every sequence *)
+               | _, _ => qs
+               end)
+          end
+      end
+  end.
+Fixpoint fhist_run (qs : list bioseq) (steps : list (nat * fstep)) : bool * list val :=
+  match steps with
+  | [] => (true, [])
+  | (obj, st) :: r =>
+      let '(ok, v, qs') := fstep_run qs obj st in
+      let '(ok', vs) := fhist_run qs' r in
+      (ok && ok', VL [v; VL (map show_seq qs')] :: vs)
+  end.
+Definition run_C06f (objs : list (str * list rawft)) (steps : list (nat * fstep)) : val :=
+  match build_basket 0 objs with
+  | Ok es =>
+      let qs := map snd es in
+      let '(ok, vs) := fhist_run qs steps in
+      VL [VB (forallb (fun o => ascii_str (fst o)) objs && negb (Nat.eqb (length qs) 0) && ok); VL vs]
+  | Err e => VL [VB false; VE e]
+  end.
